@@ -111,6 +111,7 @@ pub enum RuleSyntaxError {
     ExpectedComma       (Token),
     ExpectedColon       (Token),
     ToneTooBig          (Token),
+    NumberTooBig        (Token),
     UnknownIPA          (Token),
     InsertErr           (Token),
     DeleteErr           (Token),
@@ -170,6 +171,7 @@ impl ASCAError for RuleSyntaxError {
             Self::ExpectedComma       (token) => format!("Expected ',', but received '{}'", token.value),
             Self::ExpectedColon       (token) => format!("Expected ':', but received '{}'", token.value),
             Self::ToneTooBig          (_)     => "A tone modifier cannot be more than 4 digits long".to_string(),
+            Self::NumberTooBig        (token) => format!("The number '{}' is too big", token.value),
             Self::UnknownIPA          (token) => format!("Could not get value of IPA '{}'.", token.value),
             Self::InsertErr           (_)     => "The input of an insertion rule must only contain `*` or `∅`".to_string(),
             Self::DeleteErr           (_)     => "The output of a deletion rule must only contain `*` or `∅`".to_string(),
@@ -224,6 +226,7 @@ impl ASCAError for RuleSyntaxError {
             Self::ExpectedComma       (t) | 
             Self::ExpectedColon       (t) | 
             Self::ToneTooBig          (t) | 
+            Self::NumberTooBig        (t) | 
             Self::UnknownIPA          (t) | 
             Self::InsertErr           (t) | 
             Self::DeleteErr           (t) | 
@@ -357,6 +360,7 @@ pub enum AliasSyntaxError {
     ExpectedArrow       (AliasToken),
     UnknownGroup        (AliasToken),
     UnknownIPA          (AliasToken),
+    ToneTooBig          (AliasToken),
     DiacriticDoesNotMeetPreReqsFeat(AliasPosition, AliasPosition, String, bool),
     DiacriticDoesNotMeetPreReqsNode(AliasPosition, AliasPosition, String, bool),
     UnexpectedEol(AliasToken, char),
@@ -396,6 +400,7 @@ impl ASCAError for AliasSyntaxError {
             Self::ExpectedArrow       (token) => format!("Expected '>', '->' or '=>', but received '{}' @ {}.", token.value, token.position),
             Self::UnknownGroup        (token) => format!("Unknown grouping '{}'. Known groupings are (C)onsonant, (O)bstruent, (S)onorant, (P)losive, (F)ricative, (L)iquid, (N)asal, (G)lide, and (V)owel @ {}.", token.value, token.position),
             Self::UnknownIPA          (token) => format!("Could not get value of IPA '{}' @ {}.", token.value, token.position),
+            Self::ToneTooBig          (token) => format!("A tone modifier cannot be more than 4 digits long @ {}.", token.position),
             Self::DiacriticDoesNotMeetPreReqsFeat(.., t, pos) |
             Self::DiacriticDoesNotMeetPreReqsNode(.., t, pos) => {
                 format!("Segment does not have prerequisite properties to have this diacritic. Must be [{}{}]", if *pos { '+' } else { '-' }, t) 
@@ -443,6 +448,7 @@ impl ASCAError for AliasSyntaxError {
             Self::ExpectedArrow       (token) |
             Self::UnknownGroup        (token) |
             Self::UnknownIPA          (token) |
+            Self::ToneTooBig          (token) |
             Self::UnexpectedEol       (token, _) => (
                 " ".repeat(token.position.start) + &"^".repeat(token.position.end-token.position.start) + "\n", 
                 token.position.kind,
